@@ -232,7 +232,40 @@ def gen_governance(repo, out):
     m = need(re.search(r'fn get_proposal_hash\(.*?\{(.*?)self\.crypto\(\)\.keccak256\(encoded\)', lib, re.S), 'get_proposal_hash').group(1)
     out.append('Definition gen_gov_proposal_hash_order : list string := %s.' % strlist(re.findall(r'(\w+)\s*\.dep_encode', m)))
 
-EXTRA = [gen_vectors, gen_gateway, gen_token_manager, gen_gas_service, gen_governance]
+def gen_its(repo, out):
+    c = read(repo, 'interchain-token-service/src/constants.rs')
+    for name in ['MESSAGE_TYPE_INTERCHAIN_TRANSFER', 'MESSAGE_TYPE_DEPLOY_INTERCHAIN_TOKEN', 'MESSAGE_TYPE_SEND_TO_HUB', 'MESSAGE_TYPE_RECEIVE_FROM_HUB',
+                 'MESSAGE_TYPE_LINK_TOKEN', 'MESSAGE_TYPE_REGISTER_TOKEN_METADATA']:
+        m = need(re.search(r'pub const %s: u64 = (\d+);' % name, c), name)
+        out.append('Definition gen_its_%s : N := %s.' % (name, m.group(1)))
+    for name in ['PREFIX_INTERCHAIN_TOKEN_ID', 'ITS_HUB_CHAIN_NAME', 'ITS_HUB_ROUTING_IDENTIFIER', 'PREFIX_CANONICAL_TOKEN_SALT', 'PREFIX_INTERCHAIN_TOKEN_SALT',
+                 'PREFIX_DEPLOY_APPROVAL', 'PREFIX_CUSTOM_TOKEN_SALT']:
+        m = need(re.search(r'pub const %s: &\[u8\] = b"(.*?)";' % name, c), name)
+        out.append('Definition gen_its_%s : bytes := %s.' % (name, coq_str(rust_bytes_literal(m.group(1)))))
+    m = need(re.search(r'pub const ESDT_EGLD_IDENTIFIER: &str = "(.*?)";', c), 'ESDT_EGLD_IDENTIFIER')
+    out.append('Definition gen_its_ESDT_EGLD_IDENTIFIER : bytes := %s.' % coq_str(m.group(1).encode()))
+    m = need(re.search(r'pub const LATEST_METADATA_VERSION: u32 = (\d+);', c), 'LATEST_METADATA_VERSION')
+    out.append('Definition gen_its_LATEST_METADATA_VERSION : N := %s.' % m.group(1))
+    body = need(re.search(r'pub struct DeployApproval<M: ManagedTypeApi> \{(.*?)\}', c, re.S), 'struct DeployApproval').group(1)
+    out.append('Definition gen_its_DeployApproval_fields : list string := %s.' % strlist(re.findall(r'pub (\w+):', body)))
+    files = ['lib', 'user_functions', 'factory', 'address_tracker', 'proxy_its', 'proxy_gmp', 'executable', 'remote']
+    srcs = {f: read(repo, 'interchain-token-service/src/%s.rs' % f) for f in files}
+    # the proxy of the DESTINATION contract is not an endpoint of the service
+    srcs['proxy_its'] = re.sub(r'pub mod executable_contract_proxy \{.*?\n\}\n', '', srcs['proxy_its'], flags=re.S)
+    eps = []
+    for f in files:
+        eps += [(n, p, o) for n, p, o, v in endpoint_table(srcs[f]) if not v]
+    out.append('Definition gen_its_endpoints : list (string * string * bool) := [%s]%%string.' % '; '.join('("%s", "%s", %s)' % (n, p, 'true' if o else 'false') for n, p, o in eps))
+    out.append('Definition gen_its_storage : list string := %s.' % strlist(sorted(set(sum((storage_mappers(srcs[f]) for f in files), [])))))
+    # which user-facing functions call require_not_paused directly (function name -> yes)
+    gated = []
+    for f in files:
+        for m in re.finditer(r'fn (\w+)\((?:[^{]|\n)*?\{((?:.|\n)*?)\n    \}', srcs[f]):
+            if 'self.require_not_paused()' in m.group(2):
+                gated.append(m.group(1))
+    out.append('Definition gen_its_pause_gated_fns : list string := %s.' % strlist(sorted(set(gated))))
+
+EXTRA = [gen_vectors, gen_gateway, gen_token_manager, gen_gas_service, gen_governance, gen_its]
 
 if __name__ == '__main__':
     main()
